@@ -151,6 +151,18 @@ CHECKS = {
         design_ref="7 C16", technique="TLA+ transcription + laws, TLC exhaustive over small sizes, replay in 4 views",
         note="Elements are int fields / int serialized methods with single-letter names. Ill-formed (dangling / cyclic) "
              "specs: losing elements is the listed known finding F-order-orphans."),
+    "C18": dict(
+        category="model_checking",
+        text="spec/Dialects.tla: Convert(S, V) transcribes to_json_schema_2019_09 / to_json_schema_7 / to_open_api_3_0 applied at "
+             "every nesting level of the abstract schema SchemaOf(T); ValidatesV gives each dialect's validation rules "
+             "(array-form items / additionalItems, dependencies, nullable; keywords outside the dialect are ignored). TLC "
+             "checks DialectEquivalent (same accepted instances as the 2020-12 schema, up to what OpenAPI 3.0 drops) and "
+             "VocabularyOnly at every level, with the known leaks excluded and required to violate it otherwise. Every case "
+             "is replayed: the real *_schema(T, version=V) is validated on the datum by jsonschema's Draft7 / Draft2019-09 "
+             "validators (OpenAPI 3.0 through its documented mapping), compared with the real 2020-12 schema and with the "
+             "model; vocabulary and reference prefixes are scanned at every level.",
+        design_ref="7 C18", technique="TLA+ dialect conversion + per-dialect semantics, TLC invariants, replay with per-draft validators",
+        note="OpenAPI 3.0 has no executable oracle: validated through the mapping written in harness/props/c18.py:oas30_to_2020."),
     "C20": dict(
         category="model_checking",
         text="spec/RecCheck.tla models is_recursive / RecursiveChecker.visit with one action per access to the shared "
